@@ -33,6 +33,8 @@ def session_scenario(rng, purpose="rewind", allow_spend=True):
         from . import spend
         sp = spend.make(rng)
         scn["spend"] = {"tx": sp["tx"], "txin": sp["txin"]}
+        if sp.get("select") is not None:
+            scn["spend"]["select"] = sp["select"]
         scn["spend_kind"] = sp["kind"]
         scn["script"] = None
         scn["opts"] = list(sp["opts"])
